@@ -28,6 +28,11 @@ func runWear(c *fw.Ctx, idx int, r *fw.Rand) {
 		conf.Storage.Type = "file"
 		conf.Storage.Params = map[string]string{"path": dir}
 	}
+	// Added after seeded change C03-12: every third server is configured for STARTTLS (the replies
+	// then differ, the framing rule does not).  No draw from r.
+	if (idx/2)%3 == 1 && withTLS(c, conf) {
+		c.Count("wear_servers_tls_configured", 1)
+	}
 	env, err := sut.NewEnv(conf, backend)
 	if err != nil {
 		panic(err)
